@@ -229,7 +229,7 @@ class EBBMotionWrap(ebb3_serial.EBB3):
         """
         if (self.port is None) or (self.err is not None):
             return
-        if pin:
+        if pin is not None:
             str_output = f'SP,0,{pen_delay},{pin}'
         else:
             str_output = f'SP,0,{pen_delay}'
@@ -243,7 +243,7 @@ class EBBMotionWrap(ebb3_serial.EBB3):
         """
         if (self.port is None) or (self.err is not None):
             return
-        if pin:
+        if pin is not None:
             str_output = f'SP,1,{pen_delay},{pin}'
         else:
             str_output = f'SP,1,{pen_delay}'
